@@ -82,6 +82,7 @@ def nelder_mead(
     # Evaluate all vertices
     values = [evaluate(v) for v in simplex]
 
+    iteration = 0
     for iteration in range(1, max_iter + 1):
         # Sort vertices by objective value (best first)
         order = sorted(range(n + 1), key=lambda i: values[i])
